@@ -35,7 +35,7 @@ BUDGET = {"quick": 240, "thorough": 2400}
 
 
 def cases(tier, seed):
-    n = 400 if tier == "quick" else 16000
+    n = 400 if tier == "quick" else 100000
     out = [{"sub": "repo_tests", "tier": tier}]
     return out + [{"sub": "history", "i": i} for i in range(n)] + [{"sub": "gatefuzz", "i": i} for i in range(8 if tier == "quick" else 100)]
 
